@@ -5,9 +5,10 @@ listener, polls the stop receiver in the same select as accept(), leaves the loo
 the stop channel resolved to (a fired and a dropped handle both end it), never awaits the per-connection
 callback (close() joins this task), and - IPC - unlinks the bound path on every exit that has one; (R17.2)
 close = unbind_all: walks every key of the bind table, collects each error; unbind awaits TaskHandle::shutdown,
-which sends on the stop channel and then awaits the join handle; (R17.3) every socket type that owns a
-peer table implements Drop -> backend.shutdown(), and every shutdown() clears the peer table; the one exemption
-(PullSocket) is listed by name with its reason; the PUB reader task is stopped through the stop sender stored
+which sends on the stop channel and then awaits the join handle; (R17.3) every socket type implements
+Drop -> backend.shutdown(); every shutdown() clears the peer table (write halves) and - where the backend shares a receive
+queue - the queue's streams (read halves), since that queue is also held by pending handshake tasks and by the streams' own
+wakers; the PUB reader task is stopped through the stop sender stored
 in the subscriber entry that shutdown() clears. Witness crate: close(self) consumes the socket.
 Does NOT decide: port actually free, file actually gone, EOF actually observed, task counts (OS/runtime facts)."""
 from ..sym import show, walk_expr
@@ -16,6 +17,7 @@ from .. import pathq
 from . import acc
 
 EXPLANATION = __doc__
+WITNESS = ['C17']
 PER_CONFIG = True
 NOT_DECIDED = "port free / file unlinked / EOF seen by peers / background tasks gone - kernel and runtime facts"
 ASSUMPTIONS = ["dropping a tokio/async-std listener closes it", "dropping a oneshot::Sender resolves the receiver with Err(Canceled)",
@@ -23,15 +25,12 @@ ASSUMPTIONS = ["dropping a tokio/async-std listener closes it", "dropping a ones
 RULES = {
     "R17.1": "accept task: select(accept, stop); stop arm always exits; callback spawned, not awaited; IPC unlinks on exit",
     "R17.2": "close -> unbind_all (all keys, errors collected) -> unbind -> shutdown = send stop + await join",
-    "R17.3": "Drop -> shutdown() for every socket type with a peer table (named exemption: PullSocket); shutdown clears the table",
+    "R17.3": "Drop -> shutdown() for all 9 socket types; shutdown clears the peer table and the shared receive queue's streams",
 }
 
-# socket types without a Drop impl that is still acceptable, with the reason (single named symbols only)
-DROP_EXEMPT = {
-    "pull::PullSocket": "PULL has no Drop on the pinned tree: its backend is referenced only by the socket and by accept tasks/handshakes "
-                        "that end when the bind table (stop senders) is dropped with the socket; the peer table then dies with the last Arc. "
-                        "(Upstream behaviour, kept as is; any OTHER socket type losing its Drop is reported.)",
-}
+# socket types without a Drop impl that is still acceptable, with the reason (single named symbols only).
+# Empty since fix c346de5: every socket type, PULL included, releases its peers on drop.
+DROP_EXEMPT = {}
 
 
 def run(ctx, f, rep):
@@ -133,12 +132,34 @@ def run(ctx, f, rep):
             rep.ok("R17.3", "R17.3|%s|drop-exempt" % s, "%s has no Drop impl: exempt by name: %s" % (s, DROP_EXEMPT[s]))
         else:
             rep.bad("R17.3", "R17.3|%s|drop-missing" % s, "%s has no Drop impl: a socket dropped without close() keeps its peer connections open as long as anything else (a pending handshake, a reader task) holds the backend" % s)
-    rep.floor("R17.3", "socket types with Drop", ndrop, 8)
+    rep.floor("R17.3", "socket types with Drop", ndrop, 9)
     shut = trait_impls(f, "SocketBackend", "shutdown")
     rep.floor("R17.3", "SocketBackend::shutdown impls", len(shut), 6)
     for ty, b in sorted(shut.items()):
         clears = [fn for bb, t, fn in b.calls() if fn and fn["name"] in ("clear_sync", "clear_async", "clear", "retain_sync") and "scc" in fn["path"]]
         rep.check(bool(clears), "R17.3", "R17.3|%s|shutdown-clears-table" % ty, "%s::shutdown clears the peer table (drops every write half)" % ty, b.loc())
+        # the read halves live in the receive queue shared with handshake tasks and with the streams' own wakers: a backend that
+        # has such a queue must empty it in shutdown(), on every path where the queue exists
+        has_queue = any(a for p_, a in f.adts.items() if p_.endswith("::" + ty.split("::")[-1]) and any("QueueInner" in x["ty"] for x in a["variants"][0]["fields"]))
+        if has_queue:
+            ok = True
+            n = 0
+            for p in pathq.paths(f, b):
+                if p.end != "return":
+                    continue
+                n += 1
+                q_none = any(e[0] == "discr" and c == ("eq", 0) and any(isinstance(x, tuple) and x and x[0] == "field" and "QueueInner" in str(x[3]) for x in walk_expr(e[1])) for (e, c, _, _) in p.conds)
+                cq = [ev for i, ev in pathq.calls(p, "clear", "drain", "retain", "take") if "QueueInner" in ev.name or "HashMap" in ev.name and "scc" not in ev.name]
+                if not q_none and not cq:
+                    ok = False
+            rep.check(ok and n > 0, "R17.3", "R17.3|%s|shutdown-clears-receive-queue" % ty,
+                      "%s::shutdown also drops the peers' read halves held in the shared receive queue (otherwise a pending handshake or a parked stream waker keeps every connection open after close/drop)" % ty, b.loc())
+    # QueueInner::clear really empties the stream map
+    qc = [b for b in f.bodies if b.path.endswith("::clear") and "QueueInner" in b.path]
+    rep.floor("R17.3", "QueueInner::clear", len(qc), 1)
+    for b in qc:
+        ok = any(fn and fn["name"] == "clear" and "HashMap" in fn["path"] for bb, t, fn in b.calls())
+        rep.check(ok, "R17.3", "R17.3|queue-clear-drops-streams", "QueueInner::clear empties the stream map (drops every read half)", b.loc())
     # PUB reader: its stop sender lives in the subscriber entry
     sub = [a for p_, a in f.adts.items() if p_.endswith("r#pub::Subscriber")]
     ok = bool(sub) and any("oneshot::Sender" in x["ty"] for x in sub[0]["variants"][0]["fields"])
